@@ -443,6 +443,63 @@ def h_seq(shape):
     return h
 
 
+def h_seqwf(shape):
+    """Shaped waveforms through Sequence.add: the pulse as scheduled (lengthened to the clock) is still within the
+    limits and is the SAME waveform (class and defining parameters), only longer."""
+
+    def h(inp):
+        stubs.bind(inp)
+        from pulser.pulse import Pulse
+        from pulser.waveforms import BlackmanWaveform, ConstantWaveform, KaiserWaveform, RampWaveform
+
+        seq = l2.new_seq("virt")
+        l2.run_prefix(inp, seq, [["declare", "g", "ryd_glob"]])
+        ch = seq.declared_channels["g"]
+        d = shape["d"]
+        kind = shape["wf"]
+        if kind == "kaiser":
+            area = inp.real("area", 0, 2)
+            wf = KaiserWaveform(d, area, shape["beta"])
+            same = lambda w: AND(isinstance(w, KaiserWaveform), facade._unwrap0(w._area) == area, float(w._beta) == float(shape["beta"]))  # noqa: E731
+        elif kind == "blackman":
+            area = inp.real("area", 0, 2)
+            wf = BlackmanWaveform(d, area)
+            same = lambda w: AND(isinstance(w, BlackmanWaveform), facade._unwrap0(w._area) == area)  # noqa: E731
+        else:
+            a0, a1 = inp.real("a0", 0, 100), inp.real("a1", 0, 100)
+            wf = RampWaveform(d, a0, a1)
+            same = lambda w: AND(isinstance(w, RampWaveform), facade._unwrap0(w._start) == a0, facade._unwrap0(w._stop) == a1)  # noqa: E731
+        det = inp.fix("det", 7, -400, 400)
+        try:
+            pulse = Pulse(wf, ConstantWaveform(d, det), 0.0)
+        except l2.REFUSALS:
+            raise core.Infeasible()
+        samples_in = [facade._unwrap0(x) for x in wf.samples.as_array(detach=True).flat]
+        try:
+            seq.add(pulse, "g")
+            ok = True
+        except l2.REFUSALS:
+            ok = False
+        clock = ch.clock_period
+        up = d + ((-d) % clock)
+        val_in = AND(*[x <= ch.max_amp for x in samples_in], abs(det) <= ch.max_abs_detuning)
+        obs = []
+        if ok:
+            sl = seq._schedule["g"].slots[-1]
+            p = sl.type
+            obs.append(("seqwf:scheduled_duration", sl.tf - sl.ti == up))
+            out = [facade._unwrap0(x) for x in p.amplitude.samples.as_array(detach=True).flat]
+            obs.append(("seqwf:scheduled_sample_count", len(out) == up))
+            obs.append(("seqwf:scheduled_within_value_limits", AND(*[x <= ch.max_amp + 1e-9 for x in out], *[x >= -1e-9 for x in out],
+                                                                    abs(det) <= ch.max_abs_detuning + 5e-7)))
+            obs.append(("seqwf:scheduled_only_lengthened", AND(same(p.amplitude), facade._unwrap0(p.detuning._value) == det)))
+        else:
+            obs.append(("seqwf:inside_is_accepted", NOT(val_in)))
+        return obs
+
+    return h
+
+
 def h_slm(shape):
     """config_slm_mask in Ising mode: the first global pulse makes the sequence add a pulse to the mask's DMM; that pulse
     must respect the DMM limits (per-atom and total bottom detuning for the masked atoms) and the clock."""
@@ -506,6 +563,12 @@ def kernels(tier):
     ks.append(("seq", dict(device="virt_reuse", call="add_dmm2", prior=True, rem=1)))
     ks.append(("seq", dict(device="virt", call="add_l", prior=True, protocol="no-delay")))
     ks.append(("seq", dict(device="virt", call="add_g", prior=True, protocol="wait-for-all")))
+    # shaped waveforms whose duration is not a clock multiple (clock 4): lengthened by Sequence.add
+    for d in ((10, 13) if tier == "quick" else (9, 10, 13, 18, 23)):
+        ks.append(("seqwf", dict(wf="kaiser", d=d, beta=2.0)))
+        ks.append(("seqwf", dict(wf="kaiser", d=d, beta=14.0)))
+        ks.append(("seqwf", dict(wf="blackman", d=d)))
+        ks.append(("seqwf", dict(wf="ramp", d=d)))
     return ks
 
 
@@ -514,4 +577,6 @@ def harness(kernel, shape):
         return h_seq(shape)
     if kernel == "slm":
         return h_slm(shape)
+    if kernel == "seqwf":
+        return h_seqwf(shape)
     return _h0(kernel, shape)
